@@ -60,6 +60,18 @@ enum PendingBlock {
     ScBool {
         jump_instrs: Vec<u32>,
     },
+    /// A scoped construct inside a loop body that `break` and `continue`
+    /// have to leave before they jump.
+    #[cfg(feature = "loop_controls")]
+    Scope(ScopeKind),
+}
+
+#[cfg(feature = "loop_controls")]
+#[derive(Copy, Clone)]
+enum ScopeKind {
+    With,
+    Capture,
+    AutoEscape,
 }
 
 const CODEGEN_POOL_MAX_ITEMS: usize = 64;
@@ -244,6 +256,46 @@ impl<'source> CodeGenerator<'source> {
         }
     }
 
+    #[cfg(feature = "loop_controls")]
+    fn enter_scope(&mut self, kind: ScopeKind) {
+        self.pending_block.push(PendingBlock::Scope(kind));
+    }
+
+    #[cfg(feature = "loop_controls")]
+    fn leave_scope(&mut self) {
+        if !matches!(self.pending_block.pop(), Some(PendingBlock::Scope(_))) {
+            unreachable!()
+        }
+    }
+
+    /// Emits the instructions that leave all scoped constructs between the
+    /// current position and the innermost loop.
+    #[cfg(feature = "loop_controls")]
+    fn unwind_scopes_to_loop(&mut self) {
+        let mut scopes = Vec::new();
+        for pending_block in self.pending_block.iter().rev() {
+            match pending_block {
+                PendingBlock::Loop { .. } => break,
+                PendingBlock::Scope(kind) => scopes.push(*kind),
+                _ => {}
+            }
+        }
+        for kind in scopes {
+            match kind {
+                ScopeKind::With => {
+                    self.add(Instruction::PopFrame);
+                }
+                ScopeKind::Capture => {
+                    self.add(Instruction::EndCapture);
+                    self.add(Instruction::DiscardTop);
+                }
+                ScopeKind::AutoEscape => {
+                    self.add(Instruction::PopAutoEscape);
+                }
+            }
+        }
+    }
+
     /// Begins an if conditional
     pub fn start_if(&mut self) {
         let jump_instr = self.add(Instruction::JumpIfFalse(!0));
@@ -346,9 +398,13 @@ impl<'source> CodeGenerator<'source> {
                     self.compile_expr(expr);
                     self.compile_assignment(target);
                 }
+                #[cfg(feature = "loop_controls")]
+                self.enter_scope(ScopeKind::With);
                 for node in &with_block.body {
                     self.compile_stmt(node);
                 }
+                #[cfg(feature = "loop_controls")]
+                self.leave_scope();
                 self.add(Instruction::PopFrame);
             }
             ast::Stmt::Set(set) => {
@@ -359,9 +415,13 @@ impl<'source> CodeGenerator<'source> {
             ast::Stmt::SetBlock(set_block) => {
                 self.set_line_from_span(set_block.span());
                 self.add(Instruction::BeginCapture(CaptureMode::Capture));
+                #[cfg(feature = "loop_controls")]
+                self.enter_scope(ScopeKind::Capture);
                 for node in &set_block.body {
                     self.compile_stmt(node);
                 }
+                #[cfg(feature = "loop_controls")]
+                self.leave_scope();
                 self.add(Instruction::EndCapture);
                 if let Some(ref filter) = set_block.filter {
                     self.compile_expr(filter);
@@ -372,17 +432,25 @@ impl<'source> CodeGenerator<'source> {
                 self.set_line_from_span(auto_escape.span());
                 self.compile_expr(&auto_escape.enabled);
                 self.add(Instruction::PushAutoEscape);
+                #[cfg(feature = "loop_controls")]
+                self.enter_scope(ScopeKind::AutoEscape);
                 for node in &auto_escape.body {
                     self.compile_stmt(node);
                 }
+                #[cfg(feature = "loop_controls")]
+                self.leave_scope();
                 self.add(Instruction::PopAutoEscape);
             }
             ast::Stmt::FilterBlock(filter_block) => {
                 self.set_line_from_span(filter_block.span());
                 self.add(Instruction::BeginCapture(CaptureMode::Capture));
+                #[cfg(feature = "loop_controls")]
+                self.enter_scope(ScopeKind::Capture);
                 for node in &filter_block.body {
                     self.compile_stmt(node);
                 }
+                #[cfg(feature = "loop_controls")]
+                self.leave_scope();
                 self.add(Instruction::EndCapture);
                 self.compile_expr(&filter_block.filter);
                 self.add(Instruction::Emit);
@@ -440,6 +508,7 @@ impl<'source> CodeGenerator<'source> {
             #[cfg(feature = "loop_controls")]
             ast::Stmt::Continue(cont) => {
                 self.set_line_from_span(cont.span());
+                self.unwind_scopes_to_loop();
                 for pending_block in self.pending_block.iter().rev() {
                     if let PendingBlock::Loop { iter_instr, .. } = pending_block {
                         self.add(Instruction::Jump(*iter_instr));
@@ -450,6 +519,7 @@ impl<'source> CodeGenerator<'source> {
             #[cfg(feature = "loop_controls")]
             ast::Stmt::Break(brk) => {
                 self.set_line_from_span(brk.span());
+                self.unwind_scopes_to_loop();
                 let instr = self.add(Instruction::Jump(0));
                 for pending_block in self.pending_block.iter_mut().rev() {
                     if let &mut PendingBlock::Loop {
